@@ -67,8 +67,8 @@ def gen(tier, rng):
          'smooth': 150}
     TIE = {'norm_real': 50, 'norm_cs': 70, 'atan2_real': 50, 'smooth': 110}
     if big:
-        N = {k: v * 15 for k, v in N.items()}
-        TIE = {k: v * 10 for k, v in TIE.items()}
+        N = {k: v * 10 for k, v in N.items()}
+        TIE = {k: v * 6 for k, v in TIE.items()}
     cases = []
     for i in range(N['abs_real']):
         n = rng.randint(1, 6)
